@@ -53,5 +53,124 @@ package core
 //@   ensures [cleared] !g.canceled && g.arrived == 0 && g.err == nil && unchanged(g.count)
 
 //@ func NewGate
+//@   modifies nothing
 //@   ensures [fresh] typeis(r0, *gateImpl) && fresh(r0)
 //@   ensures [initial] r0.(*gateImpl).count == count && r0.(*gateImpl).arrived == 0 && !r0.(*gateImpl).canceled && r0.(*gateImpl).err == nil
+
+// ---------------------------------------------------------------------------------------------
+// C11: flow objects fan out to every gate. The four (three) gates are distinct gateImpl objects.
+// ---------------------------------------------------------------------------------------------
+
+//@ spec gateOf(g Gate) *gateImpl = g.(*gateImpl)
+//@ spec isGate(g Gate) bool = typeis(g, *gateImpl) && ref(g) != 0
+//@ spec gateInitial(g Gate, n int) bool = typeis(g, *gateImpl) && g.(*gateImpl).count == n && g.(*gateImpl).arrived == 0 && !g.(*gateImpl).canceled && g.(*gateImpl).err == nil
+//@ spec gateCancelled(g Gate, e error) bool = g.(*gateImpl).canceled && g.(*gateImpl).err == e
+//@ spec gateCleared(g Gate) bool = !g.(*gateImpl).canceled && g.(*gateImpl).arrived == 0 && g.(*gateImpl).err == nil
+
+//@ typeinv initFlowSynchronizationImpl s
+//@   inv isGate(s.externalAgentsRegisteredGate) && isGate(s.runtimeReadyGate) && isGate(s.agentReadyGate) && isGate(s.runtimeRestoreReadyGate)
+//@   inv ref(s.externalAgentsRegisteredGate) != ref(s.runtimeReadyGate) && ref(s.externalAgentsRegisteredGate) != ref(s.agentReadyGate) && ref(s.externalAgentsRegisteredGate) != ref(s.runtimeRestoreReadyGate)
+//@   inv ref(s.runtimeReadyGate) != ref(s.agentReadyGate) && ref(s.runtimeReadyGate) != ref(s.runtimeRestoreReadyGate) && ref(s.agentReadyGate) != ref(s.runtimeRestoreReadyGate)
+
+//@ typeinv invokeFlowSynchronizationImpl s
+//@   inv isGate(s.runtimeReadyGate) && isGate(s.runtimeResponseGate) && isGate(s.agentReadyGate)
+//@   inv ref(s.runtimeReadyGate) != ref(s.runtimeResponseGate) && ref(s.runtimeReadyGate) != ref(s.agentReadyGate) && ref(s.runtimeResponseGate) != ref(s.agentReadyGate)
+
+//@ func NewInitFlowSynchronization
+//@   modifies nothing
+//@   ensures [fresh] typeis(r0, *initFlowSynchronizationImpl) && fresh(r0)
+//@   ensures [initial] gateInitial(r0.(*initFlowSynchronizationImpl).runtimeReadyGate, 1) && gateInitial(r0.(*initFlowSynchronizationImpl).externalAgentsRegisteredGate, 0) && gateInitial(r0.(*initFlowSynchronizationImpl).agentReadyGate, 65535) && gateInitial(r0.(*initFlowSynchronizationImpl).runtimeRestoreReadyGate, 1)
+
+//@ func NewInvokeFlowSynchronization
+//@   modifies nothing
+//@   ensures [fresh] typeis(r0, *invokeFlowSynchronizationImpl) && fresh(r0)
+//@   ensures [initial] gateInitial(r0.(*invokeFlowSynchronizationImpl).runtimeReadyGate, 1) && gateInitial(r0.(*invokeFlowSynchronizationImpl).runtimeResponseGate, 1) && gateInitial(r0.(*invokeFlowSynchronizationImpl).agentReadyGate, 65535)
+
+//@ func (*initFlowSynchronizationImpl).CancelWithError
+//@   modifies all(gateImpl.canceled), all(gateImpl.err)
+//@   ensures [all-gates] gateCancelled(s.externalAgentsRegisteredGate, err) && gateCancelled(s.runtimeReadyGate, err) && gateCancelled(s.agentReadyGate, err) && gateCancelled(s.runtimeRestoreReadyGate, err)
+
+//@ func (*initFlowSynchronizationImpl).Clear
+//@   modifies all(gateImpl.canceled), all(gateImpl.err), all(gateImpl.arrived)
+//@   ensures [all-gates] gateCleared(s.externalAgentsRegisteredGate) && gateCleared(s.runtimeReadyGate) && gateCleared(s.agentReadyGate) && gateCleared(s.runtimeRestoreReadyGate)
+
+//@ func (*invokeFlowSynchronizationImpl).CancelWithError
+//@   modifies all(gateImpl.canceled), all(gateImpl.err)
+//@   ensures [all-gates] gateCancelled(s.runtimeResponseGate, err) && gateCancelled(s.runtimeReadyGate, err) && gateCancelled(s.agentReadyGate, err)
+
+//@ func (*invokeFlowSynchronizationImpl).Clear
+//@   modifies all(gateImpl.canceled), all(gateImpl.err), all(gateImpl.arrived)
+//@   ensures [all-gates] gateCleared(s.runtimeResponseGate) && gateCleared(s.runtimeReadyGate) && gateCleared(s.agentReadyGate)
+
+//@ func (*invokeFlowSynchronizationImpl).InitializeBarriers
+//@   modifies all(gateImpl.arrived)
+//@   ensures [all-gates-rearmed] (!old(gateOf(s.runtimeReadyGate).canceled) ==> gateOf(s.runtimeReadyGate).arrived == 0) && (!old(gateOf(s.runtimeResponseGate).canceled) ==> gateOf(s.runtimeResponseGate).arrived == 0) && (!old(gateOf(s.agentReadyGate).canceled) ==> gateOf(s.agentReadyGate).arrived == 0)
+//@   ensures [sticky] (old(gateOf(s.runtimeReadyGate).canceled) ==> gateOf(s.runtimeReadyGate).arrived == old(gateOf(s.runtimeReadyGate).arrived)) && (old(gateOf(s.runtimeResponseGate).canceled) ==> gateOf(s.runtimeResponseGate).arrived == old(gateOf(s.runtimeResponseGate).arrived)) && (old(gateOf(s.agentReadyGate).canceled) ==> gateOf(s.agentReadyGate).arrived == old(gateOf(s.agentReadyGate).arrived))
+//@   ensures [ok] r0 == nil
+
+// Single-gate operations of the flow objects: each is exactly the gate operation on the named gate.
+
+//@ spec setCountSpec(g *gateImpl, n int, r error) bool = (n < old(g.arrived) ==> r == ErrGateIntegrity && unchanged(g.count, g.arrived, g.canceled, g.err)) && (n >= old(g.arrived) ==> r == nil && g.count == n && unchanged(g.arrived, g.canceled, g.err))
+//@ spec walkSpec(g *gateImpl, r error) bool = (old(g.arrived) == old(g.count) ==> r == ErrGateIntegrity && unchanged(g.count, g.arrived, g.canceled, g.err)) && (old(g.arrived) != old(g.count) ==> r == nil && g.arrived == old(g.arrived) + 1 && unchanged(g.count, g.canceled, g.err))
+//@ spec awaitSpec(g *gateImpl, r error) bool = (r == nil <==> !g.canceled) && (r == nil ==> g.arrived == g.count) && (g.canceled && g.err != nil ==> r == g.err) && (g.canceled && g.err == nil ==> r == ErrGateCanceled)
+
+//@ func (*initFlowSynchronizationImpl).SetExternalAgentsRegisterCount
+//@   modifies s.externalAgentsRegisteredGate.(*gateImpl).count
+//@   ensures [delegates] setCountSpec(gateOf(s.externalAgentsRegisteredGate), externalAgentsNumber, r0)
+//@ func (*initFlowSynchronizationImpl).SetAgentsReadyCount
+//@   modifies s.agentReadyGate.(*gateImpl).count
+//@   ensures [delegates] setCountSpec(gateOf(s.agentReadyGate), agentCount, r0)
+//@ func (*initFlowSynchronizationImpl).AwaitRuntimeReady
+//@   modifies nothing
+//@   ensures [delegates] awaitSpec(gateOf(s.runtimeReadyGate), r0)
+//@ func (*initFlowSynchronizationImpl).AwaitRuntimeRestoreReady
+//@   modifies nothing
+//@   ensures [delegates] awaitSpec(gateOf(s.runtimeRestoreReadyGate), r0)
+//@ func (*initFlowSynchronizationImpl).AwaitExternalAgentsRegistered
+//@   modifies nothing
+//@   ensures [delegates] awaitSpec(gateOf(s.externalAgentsRegisteredGate), r0)
+//@ func (*initFlowSynchronizationImpl).AwaitAgentsReady
+//@   modifies nothing
+//@   ensures [delegates] awaitSpec(gateOf(s.agentReadyGate), r0)
+//@ func (*initFlowSynchronizationImpl).RuntimeReady
+//@   modifies s.runtimeReadyGate.(*gateImpl).arrived
+//@   ensures [delegates] walkSpec(gateOf(s.runtimeReadyGate), r0)
+//@ func (*initFlowSynchronizationImpl).RuntimeRestoreReady
+//@   modifies s.runtimeRestoreReadyGate.(*gateImpl).arrived
+//@   ensures [delegates] walkSpec(gateOf(s.runtimeRestoreReadyGate), r0)
+//@ func (*initFlowSynchronizationImpl).AgentReady
+//@   modifies s.agentReadyGate.(*gateImpl).arrived
+//@   ensures [delegates] walkSpec(gateOf(s.agentReadyGate), r0)
+//@ func (*initFlowSynchronizationImpl).ExternalAgentRegistered
+//@   modifies s.externalAgentsRegisteredGate.(*gateImpl).arrived
+//@   ensures [delegates] walkSpec(gateOf(s.externalAgentsRegisteredGate), r0)
+
+//@ event InitFlowCancel = call go.amzn.com/lambda/core.(*initFlowSynchronizationImpl).CancelWithError
+
+//@ func (*initFlowSynchronizationImpl).AwaitRuntimeReadyWithDeadline
+//@   modifies all(gateImpl.canceled), all(gateImpl.err), events(InitFlowCancel)
+//@   ensures [timeout-cancels-all] cnt(InitFlowCancel) != old(cnt(InitFlowCancel)) ==> r0 == interop.ErrRestoreHookTimeout && gateCancelled(s.externalAgentsRegisteredGate, r0) && gateCancelled(s.runtimeReadyGate, r0) && gateCancelled(s.agentReadyGate, r0) && gateCancelled(s.runtimeRestoreReadyGate, r0)
+//@   ensures [at-most-once] cnt(InitFlowCancel) <= old(cnt(InitFlowCancel)) + 1
+//@   ensures [no-cancel-no-change] cnt(InitFlowCancel) == old(cnt(InitFlowCancel)) ==> unchanged(gateOf(s.runtimeReadyGate).canceled, gateOf(s.agentReadyGate).canceled, gateOf(s.externalAgentsRegisteredGate).canceled, gateOf(s.runtimeRestoreReadyGate).canceled)
+
+//@ func (*invokeFlowSynchronizationImpl).AwaitRuntimeResponse
+//@   modifies nothing
+//@   ensures [delegates] awaitSpec(gateOf(s.runtimeResponseGate), r0)
+//@ func (*invokeFlowSynchronizationImpl).AwaitRuntimeReady
+//@   modifies nothing
+//@   ensures [delegates] awaitSpec(gateOf(s.runtimeReadyGate), r0)
+//@ func (*invokeFlowSynchronizationImpl).AwaitAgentsReady
+//@   modifies nothing
+//@   ensures [delegates] awaitSpec(gateOf(s.agentReadyGate), r0)
+//@ func (*invokeFlowSynchronizationImpl).RuntimeResponse
+//@   modifies s.runtimeResponseGate.(*gateImpl).arrived
+//@   ensures [delegates] walkSpec(gateOf(s.runtimeResponseGate), r0)
+//@ func (*invokeFlowSynchronizationImpl).RuntimeReady
+//@   modifies s.runtimeReadyGate.(*gateImpl).arrived
+//@   ensures [delegates] walkSpec(gateOf(s.runtimeReadyGate), r0)
+//@ func (*invokeFlowSynchronizationImpl).AgentReady
+//@   modifies s.agentReadyGate.(*gateImpl).arrived
+//@   ensures [delegates] walkSpec(gateOf(s.agentReadyGate), r0)
+//@ func (*invokeFlowSynchronizationImpl).SetAgentsReadyCount
+//@   modifies s.agentReadyGate.(*gateImpl).count
+//@   ensures [delegates] setCountSpec(gateOf(s.agentReadyGate), agentCount, r0)
